@@ -96,7 +96,9 @@ func c13Enum(thorough bool) []*driver.Plan {
 	return out
 }
 
-func c13Build(e *driver.Env) { e.Data = BuildStage(e, "C13.a") }
+func c13BuildOne(e *driver.Env) { e.Data = BuildStage(e, "C13.a") }
+
+func c13Build(e *driver.Env) { c13BuildOne(e) }
 
 func c13Final(e *driver.Env) {
 	s := e.Data.(*Sys)
